@@ -11,6 +11,7 @@ package gmars
 func init() {
 	vHarness["C14_copy"] = VerifHarness_C14_copy
 	vHarness["C14_maporder"] = VerifHarness_C14_maporder
+	vHarness["C14_history"] = VerifHarness_C14_history
 	vHarness["C14_footprint"] = VerifHarness_C14_footprint
 }
 
@@ -20,8 +21,14 @@ func VerifHarness_C14_copy() {
 	// the caller's slice may have spare capacity (a pre-sized buffer)
 	d := &WarriorData{Name: "w", Code: make([]Instruction, L, L*vParamOr("capfactor", 1))}
 	orig := make([]Instruction, L)
+	// wide: the shared data was assembled for a larger core (fields up to 4M)
+	wide := vParamOr("wide", 0) == 1
 	for i := 0; i < L; i++ {
-		d.Code[i] = vHavocInstr(M)
+		if wide {
+			d.Code[i] = vHavocInstr(4 * M)
+		} else {
+			d.Code[i] = vHavocInstr(M)
+		}
 		orig[i] = d.Code[i]
 	}
 	d.Start = vInt("start")
@@ -31,6 +38,21 @@ func VerifHarness_C14_copy() {
 	s := vMkSim(M, M, M, 2, 100)
 	w, err := s.AddWarrior(d)
 	vAssert("add-ok", err == nil)
+	// adding reads the shared data and never writes it
+	for i := 0; i < L; i++ {
+		vAssert("adding-does-not-touch-callers-data", vSameInstr(d.Code[i], orig[i]))
+	}
+	vAssert("adding-does-not-touch-callers-data", d.Start == start0 && len(d.Code) == L && d.Name == "w")
+	if wide {
+		off := Address(vU64("off"))
+		vAssume(off < M)
+		vAssert("spawn-ok", s.SpawnWarrior(0, off) == nil)
+		for i := 0; i < L; i++ {
+			vAssert("adding-does-not-touch-callers-data", vSameInstr(d.Code[i], orig[i]))
+		}
+		vReach("end")
+		return
+	}
 	// the caller changes its data after adding
 	for i := 0; i < L; i++ {
 		d.Code[i] = vHavocInstr(M)
@@ -126,6 +148,47 @@ func VerifHarness_C14_maporder() {
 		}
 	}
 	vAssert("result-independent-of-map-order", ok)
+	vAssert("no-shared-state-written", vSharedWrites() == 0)
+	vReach("end")
+}
+
+// assembling under one configuration, then another of the same core size,
+// then the first again, in one process: every result is the one the
+// configuration in force determines (no state survives an assembly)
+func VerifHarness_C14_history() {
+	M := Address(vParam("M"))
+	mk := func(tag string) SimulatorConfig {
+		c := NewQuickConfig(ICWS94, M, 1, 1, 1)
+		c.Processes = Address(vU64(tag + "procs"))
+		c.Length = Address(vU64(tag + "len"))
+		c.Distance = Address(vU64(tag + "dist"))
+		vAssume(c.Processes >= 1 && c.Processes <= 100000)
+		vAssume(c.Length >= 2 && c.Length <= M)
+		vAssume(c.Distance >= 1 && c.Distance <= M)
+		vAssume(c.Length+c.Distance <= M) // a valid configuration
+		return c
+	}
+	cfgs := []SimulatorConfig{mk("a_"), mk("b_")}
+	order := []int{0, 1, 0}
+	for _, k := range order {
+		cfg := cfgs[k]
+		lines := []sourceLine{
+			{typ: lineInstruction, op: "dat", amode: "#", a: []token{{tokText, "MAXLENGTH"}}, bmode: "#", b: []token{{tokText, "MINDISTANCE"}}},
+			{typ: lineInstruction, op: "dat", amode: "#", a: []token{{tokText, "MAXPROCESSES"}}, bmode: "#", b: []token{{tokText, "CORESIZE"}}},
+		}
+		c, err := newCompiler(lines, WarriorData{}, cfg)
+		vAssert("compiler-created", err == nil)
+		if err != nil {
+			return
+		}
+		w, err := c.compile()
+		vAssert("assembles", err == nil)
+		if err != nil {
+			return
+		}
+		vAssert("result-independent-of-earlier-assemblies",
+			w.Code[0].A == cfg.Length%M && w.Code[0].B == cfg.Distance%M && w.Code[1].A == cfg.Processes%M && w.Code[1].B == 0)
+	}
 	vAssert("no-shared-state-written", vSharedWrites() == 0)
 	vReach("end")
 }
